@@ -923,7 +923,9 @@ def _dcopy(I, recv, args, kw):
 def _odict(I, args, kw):
     if args or kw:
         raise Unsupported("OrderedDict(initial)")
-    raise Unsupported("OrderedDict(): symbolic ordered dicts are created from contract Rec types")
+    ks, vs = ELEM_SORT["str"], ELEM_SORT["any"]
+    I.use("OrderedDict(): empty ordered mapping (keys typed str, values opaque)")
+    return HDict(ksort="str", vkind="any", has=z3.K(ks, z3.BoolVal(False)), val=z3.K(ks, z3.Const("nil!obj", vs)), order=z3.Empty(z3.SeqSort(ks)))
 
 
 @meth("dict", "move_to_end")
@@ -1072,3 +1074,107 @@ def _defaultdict(I, args, kw):
     d = HDict(concrete={})
     d.default_factory = args[0] if args else None
     return d
+
+
+# ------------------------------------------------------------------ pathlib (lexical model)
+# A path is abstracted to the lexical facts C13 is about.  Assumed contract of pathlib
+# (DESIGN 8): for a relative path t without '..' parts, root.joinpath(t) is lexically
+# inside root; joining an absolute t discards root; with_suffix keeps both facts and
+# needs a non-empty name.
+import os as _os
+import pathlib as _pathlib
+
+P_abs = z3.Function("path_is_absolute", StrSort, BoolSort)
+P_pardir = z3.Function("path_has_pardir_part", StrSort, BoolSort)
+P_noname = z3.Function("path_name_is_empty", StrSort, BoolSort)
+P_suffix = z3.Function("path_has_suffix", StrSort, BoolSort)
+
+
+class SPath:
+    def __init__(self, abs_, pardir, noname, suffix, inside=None, root=None, text=None):
+        self.abs, self.pardir, self.noname, self.suffix = abs_, pardir, noname, suffix
+        self.inside = inside  # z3 Bool: lexically inside `root` (None: not a joined path)
+        self.root = root
+        self.text = text
+
+
+@ext(_pathlib.Path)
+def _path_new(I, args, kw):
+    ex = I.ex
+    (s,) = args
+    if isinstance(s, SPath):
+        return s
+    t = ex.to_str_term(s)
+    I.use("pathlib.Path(s): lexical facts is_absolute / has '..' part / empty name / has suffix are uninterpreted predicates of s")
+    return SPath(P_abs(t), P_pardir(t), P_noname(t), P_suffix(t), text=t)
+
+
+def path_getattr(I, p: SPath, attr):
+    ex = I.ex
+    if attr == "suffix":
+        s = ex.fresh("suffix", "str")
+        ex.assume((z3.Length(s.t) > 0) == p.suffix)
+        return s
+    if attr == "parts":
+        return Tagged("pathparts", p)
+    if attr == "name":
+        s = ex.fresh("pathname", "str")
+        ex.assume((z3.Length(s.t) == 0) == p.noname)
+        return s
+    if attr in ("with_suffix", "joinpath", "exists", "is_file", "is_absolute", "is_dir", "open", "read_text", "stat", "__str__"):
+        return BoundIntrinsic(p, "path", attr)
+    raise Unsupported(f"Path.{attr}")
+
+
+@meth("path", "with_suffix")
+def _with_suffix(I, recv, args, kw):
+    ex = I.ex
+    (ext_,) = args
+    I.use("Path.with_suffix(ext): ValueError when the path has an empty name; keeps is_absolute and '..' parts")
+    ex.require(z3.Not(recv.noname), "ValueError", "Path.with_suffix on an empty name")
+    has = ex.truth(ext_)
+    has = z3.BoolVal(has) if isinstance(has, bool) else has
+    return SPath(recv.abs, recv.pardir, z3.BoolVal(False), has)
+
+
+@meth("path", "joinpath")
+def _joinpath(I, recv, args, kw):
+    ex = I.ex
+    (t,) = args
+    if not isinstance(t, SPath):
+        t = _path_new(I, [t], {})
+    I.use("root.joinpath(t) is lexically inside root iff t is relative and has no '..' part (no symlinks below roots)")
+    return SPath(z3.Or(recv.abs, t.abs), z3.Or(recv.pardir, t.pardir), t.noname, t.suffix,
+                 inside=z3.And(z3.Not(t.abs), z3.Not(t.pardir)), root=recv)
+
+
+@meth("path", "is_absolute")
+def _is_absolute(I, recv, args, kw):
+    return I.ex.to_bool_value(recv.abs)
+
+
+@meth("path", "exists")
+def _exists(I, recv, args, kw):
+    ex = I.ex
+    b = ex.fresh("exists", "bool")
+    recv.exists = b.t
+    if not hasattr(recv, "isfile"):
+        recv.isfile = ex.fresh("is_file", "bool").t
+        ex.assume(z3.Implies(recv.isfile, b.t))
+    return b
+
+
+@meth("path", "is_file")
+def _is_file(I, recv, args, kw):
+    ex = I.ex
+    if not hasattr(recv, "isfile"):
+        recv.isfile = ex.fresh("is_file", "bool").t
+    return SBool(recv.isfile)
+
+
+
+
+@meth("path", "stat")
+def _stat(I, recv, args, kw):
+    I.use("Path.stat().st_mtime: the file's current modification time (an opaque real)")
+    return HObj(ClassRef("stat_result"), {"st_mtime": SReal(z3.Real("stat.st_mtime"))})
